@@ -273,6 +273,36 @@ func c04Programs(r *run.Run) {
 			c.Nontrivial()
 			c04Check(c, "run and tail", []*cff.Glyph{cff.NewGlyph(".notdef", 0), buildGlyph("A", 321, [2]float64{-100, 50}, segs)}, desc)
 		})
+	r.Explore(explore.Config{Name: "C04.curve-pairs"},
+		"two consecutive curves with every combination of the six vertical (or, transposed, horizontal) steps from {0, 5, -5, 7} and fixed steps in the other direction (all shapes the flex operators hflex, hflex1, flex1 and flex can or cannot express: horizontal joins, returns to the start level, asymmetric bumps), alone or followed by a line",
+		func(c *explore.Ctx) {
+			vals := []float64{0, 5, -5, 7}
+			var d [6]float64
+			for i := range d {
+				d[i] = vals[c.Choose(len(vals), fmt.Sprintf("step %d", i+1))]
+			}
+			transposed := c.Bool("transposed")
+			tail := c.Bool("line behind")
+			along := [6]float64{10, 11, 12, 13, 14, 15}
+			mk := func(k int) c04Seg {
+				a := [6]float64{along[3*k], d[3*k], along[3*k+1], d[3*k+1], along[3*k+2], d[3*k+2]}
+				if transposed {
+					for i := 0; i < 6; i += 2 {
+						a[i], a[i+1] = a[i+1], a[i]
+					}
+				}
+				return c04Seg{"curve", 'C', a}
+			}
+			segs := []c04Seg{mk(0), mk(1)}
+			if tail {
+				segs = append(segs, c04Seg{"line", 'L', [6]float64{3, 4}})
+			}
+			desc := fmt.Sprintf("steps %v transposed=%v line=%v", d, transposed, tail)
+			c.Sample(func() any { return desc })
+			c.Nontrivial()
+			c04Check(c, "curve pairs", []*cff.Glyph{cff.NewGlyph(".notdef", 0), buildGlyph("A", 321, [2]float64{-100, 50}, segs)}, desc)
+		})
+
 	r.Explore(explore.Config{Name: "C04.far-jumps"},
 		"paths of 1..2 segments (moveto, lineto, curveto) between the corners and edge midpoints of the coordinate range [-32000, 32000]^2: single steps of up to 64000 units, more than one charstring number can hold",
 		func(c *explore.Ctx) {
